@@ -31,17 +31,6 @@ def main(argv=None):
     except ValueError:
         seed = 0
     prop = a.property.upper()
-    # watchdog: a check must terminate; a run-away normalisation is an analysis failure, never a silent hang
-    import threading
-    limit = int(os.environ.get("PYXAB_CHECK_TIMEOUT", "3000" if a.tier == "thorough" else "900"))
-
-    def _expired():
-        sys.stdout.write("ANALYSIS-ERROR property=%s analysis did not finish within %d s\n" % (prop, limit))
-        sys.stdout.flush()
-        os._exit(2)
-    wd = threading.Timer(limit, _expired)
-    wd.daemon = True
-    wd.start()
     from pyxab_static import report
     from pyxab_static.model import Model
     try:
@@ -83,5 +72,53 @@ def main(argv=None):
         return 2
 
 
+def supervised(argv):
+    """Run main() in a child process and kill it when it exceeds the time limit: a check must terminate, and a
+    run-away normalisation inside a C routine (which no in-process timer can interrupt) is an analysis failure,
+    never a silent hang."""
+    import signal
+    import time
+    tier = os.environ.get("VERIF_TIER", "quick")
+    prop = "?"
+    for i, x in enumerate(argv):
+        if x == "--tier" and i + 1 < len(argv):
+            tier = argv[i + 1]
+        if x == "--property" and i + 1 < len(argv):
+            prop = argv[i + 1].upper()
+    limit = int(os.environ.get("PYXAB_CHECK_TIMEOUT", "3000" if tier == "thorough" else "900"))
+    sys.stdout.flush()
+    pid = os.fork()
+    if pid == 0:
+        os.setsid()
+        rc = 2
+        try:
+            rc = main(argv)
+        except SystemExit as ex:
+            rc = ex.code if isinstance(ex.code, int) else 2
+        except BaseException:
+            traceback.print_exc()
+        finally:
+            sys.stdout.flush()
+            sys.stderr.flush()
+            os._exit(rc if isinstance(rc, int) else 2)
+    deadline = time.time() + limit
+    while True:
+        done, status = os.waitpid(pid, os.WNOHANG)
+        if done:
+            if os.WIFEXITED(status):
+                return os.WEXITSTATUS(status)
+            print("ANALYSIS-ERROR property=%s the analysis process died (status %d)" % (prop, status))
+            return 2
+        if time.time() > deadline:
+            try:
+                os.killpg(pid, signal.SIGKILL)
+            except OSError:
+                pass
+            os.waitpid(pid, 0)
+            print("ANALYSIS-ERROR property=%s analysis did not finish within %d s" % (prop, limit))
+            return 2
+        time.sleep(0.05)
+
+
 if __name__ == "__main__":
-    sys.exit(main())
+    sys.exit(supervised(sys.argv[1:]))
